@@ -45,6 +45,11 @@ func (r *runner) report(id string, hs []*harnessRun, t0 time.Time, noReplay bool
 	outside := map[string]int{}
 	seq := 0
 
+	if r.cross != nil && len(r.cross.Disagree) > 0 {
+		for _, d := range r.cross.Disagree {
+			inconclusive = append(inconclusive, "solver disagreement on an assertion query: "+d)
+		}
+	}
 	if r.deadlineHit {
 		inconclusive = append(inconclusive, "wall-clock budget exhausted before all paths were explored")
 	}
@@ -195,12 +200,20 @@ func (r *runner) report(id string, hs []*harnessRun, t0 time.Time, noReplay bool
 	for _, h := range hs {
 		hsum = append(hsum, map[string]interface{}{
 			"harness": h.name, "package": h.pkg, "paths": h.paths, "outcomes": h.outcomes,
-			"symbolic_decisions": h.decisions, "assertion_queries_unsat": h.discharged,
+			"symbolic_decisions": h.decisions, "assertions_held": h.discharged, "assertions_discharged_by_unsat": h.solverDischarged,
 			"labels_reached": h.reached, "ssa_steps": h.steps, "max_symbolic_inputs": h.maxInputs,
 		})
 	}
 	if len(samples) == 0 {
 		samples = append(samples, map[string]interface{}{"note": "no model replayed"})
+	}
+	totalSolverDischarged := 0
+	for _, h := range hs {
+		totalSolverDischarged += h.solverDischarged
+	}
+	crossSolvers, crossAsked, crossDisagree := []string{}, 0, 0
+	if r.cross != nil {
+		crossSolvers, crossAsked, crossDisagree = r.cross.Solvers, r.cross.Asked, len(r.cross.Disagree)
 	}
 	seed, _ := strconv.Atoi(os.Getenv("VERIF_SEED"))
 	status := "pass"
@@ -244,6 +257,10 @@ func (r *runner) report(id string, hs []*harnessRun, t0 time.Time, noReplay bool
 			"queries": map[string]interface{}{
 				"total": r.solverStats.queries, "sat": r.solverStats.sat, "unsat": r.solverStats.unsat, "unknown": r.solverStats.unk,
 				"assertion_obligations_discharged": totalDischarged,
+				"of_which_by_solver_unsat":         totalSolverDischarged,
+				"cross_checked_with":               crossSolvers,
+				"cross_check_queries":              crossAsked,
+				"cross_check_disagreements":        crossDisagree,
 			},
 			"solver":          "z3 4.8.12 (z3 -in, incremental, 60 s cap per query)",
 			"solver_time_s":   r.solverStats.time.Seconds(),
@@ -273,8 +290,8 @@ func (r *runner) report(id string, hs []*harnessRun, t0 time.Time, noReplay bool
 	for _, l := range inconclusive {
 		fmt.Println("INCONCLUSIVE:", l)
 	}
-	fmt.Printf("%s %s: %s — %d harnesses, %d paths, %d decisions, %d assertion queries unsat, %d solver queries (%.1fs solver), %d native replays, %.1fs\n",
-		id, r.tierName, status, len(hs), totalPaths, totalDecisions, totalDischarged, r.solverStats.queries, r.solverStats.time.Seconds(), replayed, time.Since(t0).Seconds())
+	fmt.Printf("%s %s: %s — %d harnesses, %d paths, %d decisions, %d assertions held (%d by unsat), %d solver queries (%.1fs solver), %d native replays, %.1fs\n",
+		id, r.tierName, status, len(hs), totalPaths, totalDecisions, totalDischarged, totalSolverDischarged, r.solverStats.queries, r.solverStats.time.Seconds(), replayed, time.Since(t0).Seconds())
 	return exit
 }
 
